@@ -280,6 +280,7 @@ def _verify(qual, repo, ctx, bound, second_solver, fast, case):
             X.notes.append(f"L: instance of lemma {lname} ({inst}) used at entry; the lemma has its own obligations")
         X.local_defs = {n.name: n for n in fn.body if isinstance(n, ast.FunctionDef)}
         X.loop_prefix = ""
+        X.loop_names = X.name_loops(fn)
         pre_pc = list(st.pc)
         exits = X.block(fn.body, st)
         n_normal = 0
